@@ -568,6 +568,7 @@ pub fn run(ctx: &mut Ctx) {
     ctx.run_suite(&PrefixSuite);
     ctx.run_suite(&SocketSuite);
     ctx.run_suite(&super::c12quic::QuicRandomSuite);
+    ctx.run_suite(&super::frontdoor::FrontDoorSuite);
     ctx.assume("hellos that span several records may be reported as absent (the statement allows absent, never another value)");
     ctx.assume("QUIC: the client random is learnt from the quiche client's TLS key log and observed through the verdict of value/mask rules over its first two bytes");
 }
@@ -577,6 +578,7 @@ pub fn replay(ctx: &mut Ctx, suite: &str, case: &Value) -> bool {
         "extraction-prefixes" => ctx.replay_suite(&PrefixSuite, case),
         "listener-on-socket" => ctx.replay_suite(&SocketSuite, case),
         "quic-client-random" => ctx.replay_suite(&super::c12quic::QuicRandomSuite, case),
+        "tls-front-door" => ctx.replay_suite(&super::frontdoor::FrontDoorSuite, case),
         _ => false,
     }
 }
